@@ -28,7 +28,9 @@ def gen_dag_config(rng, n=None):
         elif names and rng.random() < 0.2:
             names.append(rng.choice(names).split("/")[0] + "%d" % i)  # string-prefix sibling
         else:
-            names.append("t%d" % i)
+            # mostly plain names; now and then an odd but legal one (non-ASCII, dots, upper case).  No blanks: -t/-c/-s values are
+            # blank-delimited by design (clap value_delimiter), so such a target cannot be named on the command line
+            names.append(("t%d" % i) if rng.random() < 0.8 else rng.choice(["ünï%d", "日本%d", "Dot.ted%d", "UPPER%d"]) % i)
     targets = []
     for i, p in enumerate(names):
         t = {"path": p}
